@@ -124,6 +124,8 @@ def testFn (name : String) (args : List PyV) : Option (PyV → Bool) :=
   | "numgt", [.num a] => some fun v => match v with | .num x => a.lt x | _ => false
   | "streq", [.str a] => some fun v => v == .str a
   | "timege", [.time a] => some fun v => match v with | .time x => decide (a ≤ x) | _ => false
+  -- returns `2 * len(v)` (an int, truthy with bit 0 clear) for a str, 0 otherwise: its truth value
+  | "twicelen", [] => some fun v => match v with | .str s => s.length != 0 | _ => false
   | _, _ => none
 
 /-- functions for `.map(g)`; `none` = raises -/
